@@ -27,7 +27,9 @@ Events (see `Lena.C20.Ev` in lean/LenaModel/Model/C20.lean):
     enter / leave     a region (branch of an `if`, loop body, exception handler...) whose effects the resolver must
                       not assume afterwards
     ext x             import-time `import x` of the third-party module x (ImportError when the environment lacks it)
-    tryBegin / tryExcept / tryEnd   a module-level `try` with a handler for ImportError
+    tryBegin / tryExcept / tryEnd   a `try` with a handler that catches ImportError / NameError / AttributeError
+    tryElse           between the handler and tryEnd: the `else:` part (runs when the body ran to its end; its failures
+                      are not caught by the handlers of its own `try`)
     gbind n / gunbind n             in a function: `global n; n = ...` / `global n; del n`
 
 Name classification (local / global / free) is taken from CPython's own `symtable`, so LEGB is exactly the
@@ -54,7 +56,13 @@ import is followed through attribute chains.  `global n` writes in functions are
 Handlers.  A `try` with a handler that catches ImportError / NameError / AttributeError (or Exception, or a bare
 `except`) is translated with its structure (`tryBegin … tryExcept mask … tryEnd`, several handlers nest): the
 resolver runs the handler exactly when the body raises such a failure, so `try: unicode / except NameError:` is not
-a failure.  Inside a function the handlers are, in addition, always checked as regions.
+a failure.  Inside a function the handlers are, in addition, always checked as regions.  The `else:` part is NOT
+guarded by the handlers (`tryElse`).  A handler that contains a `raise` statement does not make a NameError /
+AttributeError harmless (the function still fails because of the undefined name, whatever class it re-raises): its
+mask loses those two bits.  A handler that contains an import statement repairs the failure (the lazy-import idiom):
+bit 3 of its mask, which catches nothing, says so (such a catch is not an import-order dependence).
+`hasattr(m.a, "b")` / `getattr(m.a, "b", default)` with a literal name are, in addition to their arguments, a guarded
+read of `m.a.b` (tryBegin, attr, tryExcept 4, tryEnd): they ask whether a lena module has an attribute.
 
 Aliases.  `x = name.a.b` at module level, or in a function for a local `x` that nothing else binds and whose root is
 a global / import-bound local / another alias, is an `alias` event: `x` is bound to what the chain denotes.
@@ -506,6 +514,7 @@ class ModuleTranslator:
             self.expr(node.value, scope, out)
             self.expr(node.target, scope, out)
             return
+        probe = self.attr_probe(node, scope)
         for child in ast.iter_child_nodes(node):
             if isinstance(child, (ast.expr, ast.keyword, ast.comprehension, ast.arguments, ast.arg,
                                   ast.FormattedValue, ast.JoinedStr, ast.Starred, ast.Slice)):
@@ -514,6 +523,33 @@ class ModuleTranslator:
                 pass
             else:
                 self.expr(child, scope, out)
+        if probe is not None:
+            out.extend(probe)
+
+    def attr_probe(self, node, scope):
+        """`hasattr(m.a, "b")`, `getattr(m.a, "b", default)`: a guarded read of `m.a.b` (the question whether a lena
+        module has an attribute -- `lena.flow` is an attribute of `lena` only after somebody imported it);
+        `getattr(m.a, "b")` without a default: the plain read of `m.a.b`.  Only for a literal name and a chain
+        rooted at a global or a followed local; the arguments themselves are translated as usual."""
+        if not (isinstance(node, ast.Call) and isinstance(node.func, ast.Name) and node.func.id in ("hasattr", "getattr")
+                and not node.keywords and len(node.args) in (2, 3)
+                and isinstance(node.args[1], ast.Constant) and isinstance(node.args[1].value, str)
+                and node.args[1].value.isidentifier()):
+            return None
+        if node.func.id == "hasattr" and len(node.args) != 2:
+            return None
+        c = self.chain_of(node.args[0])
+        if c is None or self.classify(scope, node.func.id) != "global":
+            return None
+        root, chain = c
+        if self.classify(scope, root) not in ("global", "implocal"):
+            return None
+        ev = ("attr", self.LN(scope, root), [self.N(a) for a in chain] + [self.N(node.args[1].value)])
+        self.tr.stats["attribute_probes"] = self.tr.stats.get("attribute_probes", 0) + 1
+        if node.func.id == "getattr" and len(node.args) == 2:
+            return [ev]
+        # in the test of an `if` whose branches import something, the question is the lazy-import idiom (bit 3)
+        return [("tryBegin",), ev, ("tryExcept", 12 if getattr(self, "lazy_test", False) else 4), ("tryEnd",)]
 
     # ---- binding targets ----------------------------------------------------------------------------------
     def bind_params(self, a, sub, evs):
@@ -742,6 +778,7 @@ class ModuleTranslator:
         sub = _Scope("function", tab, qual + ".<locals>.", _implocals(tab), parent=scope)
         sub.aliases = self.alias_locals(st, tab)
         sub.fname = qual
+        sub.exc_locals = self.exception_locals(st, sub)
         self.tr.stats["module_alias_locals"] = self.tr.stats.get("module_alias_locals", 0) + len(sub.aliases)
         evs = []
         self.bind_params(a, sub, evs)
@@ -749,6 +786,45 @@ class ModuleTranslator:
         # the line CPython records for the code object (`co_firstlineno`): the first decorator, if there is one
         self.add_func(qual, min([st.lineno] + [d.lineno for d in st.decorator_list]), evs)
         self.bind_def(st.name, scope, out)
+
+    def exception_locals(self, fnode, sub):
+        """locals of the function that are bound by nothing but `v = X(...)` / `v = X` where `X` is a name or an
+        attribute chain that is not rooted at a local: `raise v` then raises (an instance of) one of those `X`
+        (`wrong_bins_error = LenaValueError(...)` ... `raise wrong_bins_error`)"""
+        a = fnode.args
+        params = {x.arg for x in a.posonlyargs + a.args + a.kwonlyargs} | {x.arg for x in (a.vararg, a.kwarg) if x}
+        binds = {}
+        for n in self.own_nodes(fnode.body):
+            if isinstance(n, ast.Assign) and len(n.targets) == 1 and isinstance(n.targets[0], ast.Name):
+                v = n.value.func if isinstance(n.value, ast.Call) else n.value
+                binds.setdefault(n.targets[0].id, []).append(("cls", v) if self.chain_of(v) is not None else ("other",))
+                binds[n.targets[0].id].append(("skip-store",))
+            elif isinstance(n, ast.Name) and isinstance(n.ctx, (ast.Store, ast.Del)):
+                binds.setdefault(n.id, []).append(("other",))
+            elif isinstance(n, ast.ExceptHandler) and n.name:
+                binds.setdefault(n.name, []).append(("other",))
+            elif isinstance(n, (ast.Import, ast.ImportFrom)):
+                for x in n.names:
+                    binds.setdefault(x.asname or x.name.split(".")[0], []).append(("other",))
+            elif isinstance(n, (ast.FunctionDef, ast.AsyncFunctionDef, ast.ClassDef)):
+                binds.setdefault(n.name, []).append(("other",))
+        out = {}
+        for name, bs in binds.items():
+            # every `v = X(...)` contributes one Store node of its own target: cancel them pairwise
+            n_assign = sum(1 for b in bs if b[0] == "skip-store")
+            others = sum(1 for b in bs if b[0] == "other") - n_assign
+            if name in params or others > 0 or any(b[0] == "other" and False for b in bs):
+                continue
+            if any(b[0] not in ("cls", "skip-store", "other") for b in bs):
+                continue
+            cls_nodes = [b[1] for b in bs if b[0] == "cls"]
+            if len(cls_nodes) != n_assign or not cls_nodes:
+                continue
+            refs = [self.class_expr(v, sub) for v in cls_nodes]
+            refs = [r for r in refs if r != ("unknown",)]
+            if refs:
+                out[name] = refs
+        return out
 
     def unevaluated(self, node):
         if node is not None:
@@ -864,7 +940,10 @@ class ModuleTranslator:
                 self.expr(st.test, scope, out)
                 self.stmts(st.body if v else st.orelse, scope, out)
             else:
+                self.lazy_test = any(isinstance(n, (ast.Import, ast.ImportFrom))
+                                     for b in st.body + st.orelse for n in ast.walk(b))
                 self.expr(st.test, scope, out)
+                self.lazy_test = False
                 self.region(st.body, scope, out)
                 self.region(st.orelse, scope, out)
                 must = (self.must_binds(st.body) & self.must_binds(st.orelse)) if st.orelse else set()
@@ -912,8 +991,16 @@ class ModuleTranslator:
                 exc = st.exc.func if isinstance(st.exc, ast.Call) else st.exc
                 rd = scope.reader() if scope.kind == "function" else None
                 fname = rd.fname if rd is not None else None
-                self.raise_sites.append({"fn": fname or "<module>", "line": st.lineno, "what": self.class_expr(exc, scope),
-                                         "protocol": bool(fname) and fname.rsplit(".", 1)[-1] in PROTOCOL_METHODS})
+                whats = [self.class_expr(exc, scope)]
+                if whats == [("unknown",)] and isinstance(exc, ast.Name) and rd is not None \
+                        and exc.id not in getattr(scope, "comp_locals", ()):
+                    # `raise v` where the local `v` is bound only by `v = X(...)`: raises X
+                    whats = getattr(rd, "exc_locals", {}).get(exc.id) or whats
+                    if whats != [("unknown",)]:
+                        self.tr.stats["raises_through_a_local"] = self.tr.stats.get("raises_through_a_local", 0) + 1
+                for what in whats:
+                    self.raise_sites.append({"fn": fname or "<module>", "line": st.lineno, "what": what,
+                                             "protocol": bool(fname) and fname.rsplit(".", 1)[-1] in PROTOCOL_METHODS})
             for child in ast.iter_child_nodes(st):
                 self.expr(child, scope, out)
 
@@ -928,16 +1015,35 @@ class ModuleTranslator:
             out.extend(evs)
 
     @staticmethod
-    def handler_mask(h):
-        """which of the failures the resolver knows the handler catches (bare `except`: all)"""
+    def own_nodes(body):
+        """the nodes of a block that belong to the enclosing code itself (not to inner defs, lambdas, classes)"""
+        stack = list(body)
+        while stack:
+            n = stack.pop()
+            yield n
+            for ch in ast.iter_child_nodes(n):
+                if not isinstance(ch, (ast.FunctionDef, ast.AsyncFunctionDef, ast.Lambda, ast.ClassDef)):
+                    stack.append(ch)
+
+    @classmethod
+    def handler_mask(cls, h):
+        """which of the failures the resolver knows the handler catches (bare `except`: all).  A handler that
+        contains a `raise` does not make a NameError / AttributeError harmless: the code still fails because of the
+        undefined name (bits 1 and 2 are dropped).  Bit 3 (catches nothing): the handler imports something -- the
+        lazy-import idiom, not an import-order dependence."""
         if h.type is None:
-            return 7
-        m = 0
-        for n in ast.walk(h.type):
-            if isinstance(n, ast.Name):
-                m |= HANDLER_MASK.get(n.id, 0)
-            elif isinstance(n, ast.Attribute):
-                m |= HANDLER_MASK.get(n.attr, 0)
+            m = 7
+        else:
+            m = 0
+            for n in ast.walk(h.type):
+                if isinstance(n, ast.Name):
+                    m |= HANDLER_MASK.get(n.id, 0)
+                elif isinstance(n, ast.Attribute):
+                    m |= HANDLER_MASK.get(n.attr, 0)
+        if m & 6 and any(isinstance(n, ast.Raise) for n in cls.own_nodes(h.body)):
+            m &= ~6
+        if m and any(isinstance(n, (ast.Import, ast.ImportFrom)) for n in cls.own_nodes(h.body)):
+            m |= 8
         return m
 
     def try_(self, st, scope, out):
@@ -953,14 +1059,24 @@ class ModuleTranslator:
             for _ in catching:
                 out.append(("tryBegin",))
             self.stmts(st.body, scope, out)
-            self.stmts(st.orelse, scope, out)
+            orelse = []
+            self.stmts(st.orelse, scope, orelse)
             again = []
             for h, m in catching:
                 out.append(("tryExcept", m))
                 evs = self.handler_events(h, scope)
                 out.extend(evs)
+                if orelse and len(catching) == 1:
+                    # the `else:` part runs when the body ran to its end, and is not guarded by the handler
+                    out.append(("tryElse",))
+                    out.extend(orelse)
                 out.append(("tryEnd",))
                 again.append((evs, h))
+            if orelse and len(catching) > 1:
+                # several catching handlers nest, which has no place for an `else:` part: it is checked unguarded,
+                # as a region (what it binds is not assumed afterwards)
+                self._emit_region(orelse, st.orelse, scope, out, force=True)
+                self.assume(self.may_binds(st.orelse), set(), scope, out)
             if scope.kind == "function":
                 for evs, h in again:
                     self._emit_region(list(evs), h.body, scope, out, force=True)
@@ -1285,10 +1401,18 @@ class Translator:
                                "protocol": r["protocol"]})
         maybe = []
         for m in modnames:
+            per_fn = {}
             for q, var in self.mts[m].maybe_unbound:
-                maybe.append({"mod": m, "fn": q, "var": var,
-                              "audited": (m, q, var) in AUDITED_MAYBE_UNBOUND,
-                              "reason": AUDITED_MAYBE_UNBOUND.get((m, q, var))})
+                per_fn.setdefault(q, []).append(var)
+            for q, var in self.mts[m].maybe_unbound:
+                known = [k for k in AUDITED_MAYBE_UNBOUND if k[0] == m and k[1] == q]
+                # by name; or, when the locals have been renamed, by count (as many possibly-unbound locals in the
+                # function as audited ones, in the same order)
+                reason = AUDITED_MAYBE_UNBOUND.get((m, q, var))
+                if reason is None and known and len(known) == len(per_fn[q]) \
+                        and not any((m, q, v) in AUDITED_MAYBE_UNBOUND for v in per_fn[q]):
+                    reason = AUDITED_MAYBE_UNBOUND[known[per_fn[q].index(var)]] + " (matched by position: renamed)"
+                maybe.append({"mod": m, "fn": q, "var": var, "audited": reason is not None, "reason": reason})
         return classes, raises, maybe
 
     def ext_id(self, top):
@@ -1491,7 +1615,7 @@ def _ev(e):
         return ".leave"
     if k == "ext":
         return f".ext {e[1]}"
-    if k in ("tryBegin", "tryEnd"):
+    if k in ("tryBegin", "tryEnd", "tryElse"):
         return "." + k
     if k == "tryExcept":
         return f".tryExcept {e[1]}"
